@@ -239,8 +239,9 @@ func (p *Path) branch(fr *frame, c *Term) bool {
 	rt, _ := p.check(c)
 	rf, _ := p.check(nc)
 	if rt == Unknown || rf == Unknown {
+		// both sides stay explored: a sound over-approximation of the paths
 		p.tainted = true
-		p.w.unknownBranches++
+		p.w.unknownFeas++
 	}
 	canT, canF := rt != Unsat, rf != Unsat
 	switch {
@@ -434,6 +435,7 @@ type Engine struct {
 	initFailures map[string]bool
 	stats   SolverStats
 	unknownBranches int
+	unknownFeas     int // feasibility answers unknown, path kept (over-approximation)
 	knownHit map[string]string
 	intercepts map[string]int
 	incHits, incMisses int
@@ -451,6 +453,7 @@ type Worker struct {
 	interp  *interpreter
 	verbose bool
 	unknownBranches int
+	unknownFeas     int // feasibility answers unknown, path kept (over-approximation)
 	cur     *Path
 }
 
@@ -563,6 +566,7 @@ func (e *Engine) run(cases []*Case, nworkers int) {
 			e.stats.Fallbacks += st.Fallbacks
 			e.stats.FallbackDecided += st.FallbackDecided
 			e.unknownBranches += w.unknownBranches
+			e.unknownFeas += w.unknownFeas
 			e.mu.Unlock()
 		}(i)
 	}
